@@ -95,6 +95,16 @@ class GenAction:
             if c not in pre:
                 pre.append(c)
                 self.pre_leaves += la + lb
+        # a quantified precondition (literals only: no leaves): grounded per object against a copy of the signature
+        self.n_forall_pre = 0
+        if typed and rng.random() < 0.2:
+            qt = rng.choice(["a", "b"])
+            qp = "p" if qt == "a" else "q"
+            body = "(not (%s ?w0))" % qp if rng.random() < 0.7 else "(%s ?w0)" % qp
+            if "b" in ptypes and "a" in ptypes and rng.random() < 0.5:
+                body = "(not (r ?x ?w0))" if qt == "b" else "(not (r ?w0 ?y))"
+            pre.append("(forall (?w0 - %s) (and %s))" % (qt, body))
+            self.n_forall_pre = 1
         self.pre_text = "(and %s)" % " ".join(dict.fromkeys(pre))
 
         def group_effects(g, min_n):
@@ -631,7 +641,7 @@ FIXTURES = [("elevators_domain.pddl", "elevators_p03.pddl", "elevators_p03_plan.
 MA_FIXTURES = ["blocks_ma_problem", "multi_agent_problem"]
 
 
-def fixture_jobs(rng, tier):
+def fixture_jobs(rng, tier, seed=0):
     """histories over the repository's own domains, problems and plans (tests/exporters_tests) and agent domains
     (tests/multi_agent_tests): parse, the shipped plan through parse_plan (strict and lenient), trajectory / domain /
     problem export, re-application of the plan's first operators to earlier and later states, combine"""
@@ -644,6 +654,8 @@ def fixture_jobs(rng, tier):
             ma.append(texts)
             ma_nacts.append(len({n for t in texts for n in re.findall(r"\(\s*:action\s+([^\s()]+)", t.lower())}))
     for fi, (df, pf, sf) in enumerate(FIXTURES):
+        if tier == "quick" and fi % 2 != seed % 2:
+            continue                 # quick: every other shipped fixture (alternating with the seed); thorough: all
         try:
             dtext, ptext = (base / "exporters_tests" / df).read_text(), (base / "exporters_tests" / pf).read_text()
             lines = [l.strip().lower() for l in (base / "exporters_tests" / sf).read_text().splitlines() if l.strip().startswith("(")]
@@ -658,7 +670,7 @@ def fixture_jobs(rng, tier):
                 calls.append({"ai": names.index(toks[0]), "args": toks[1:], "call": "(%s)" % " ".join(toks)})
         if not calls:
             continue
-        k = min(len(calls), 6 if tier == "quick" else 30)
+        k = min(len(calls), 5 if tier == "quick" else 30)
         start = 0 if tier == "quick" or len(calls) <= k else rng.randrange(0, 2)
         plan = calls[:k]
         ops = [{"k": "parse_domain", "src": 0}, {"k": "parse_problem", "src": 0, "dom": 0},
@@ -751,9 +763,9 @@ def run(args):
                 rep.violation(write_replay(PROP, "replay_again", {"kind": "input", "input": {"job": public(jobs[0])}, "result": r}), True)
         return rep.finish()
 
-    n_hist = 220 if args.tier == "quick" else 1800
+    n_hist = 200 if args.tier == "quick" else 2400
     n_thr = 10 if args.tier == "quick" else 60
-    jobs = witness_jobs() + fixture_jobs(rng, args.tier)
+    jobs = witness_jobs() + fixture_jobs(rng, args.tier, args.seed)
     for i in range(n_hist):
         jobs.append(gen_history(rng, i, args.tier))
     hashseeds = [args.seed % 1000] if args.tier == "quick" else [args.seed % 1000, 1 + args.seed % 1000, 2 + args.seed % 1000]
@@ -816,9 +828,9 @@ def run(args):
     # shrink failing histories (oracle-dirty outside the known class) before they are written as replays
     n_shrunk = 0
     for i, (c, ch) in enumerate(zip(cases, verdicts)):
-        if ch in "oA" and "_job" in c and len(c["_job"]["ops"]) > 3 and n_shrunk < 3:
+        if ch in "oA" and "_job" in c and 3 < len(c["_job"]["ops"]) <= 14 and n_shrunk < 3:
             n_shrunk += 1
-            small = shrink(c["_job"], dirty)
+            small = shrink(c["_job"], dirty, budget=20)
             c["input"]["job"] = public(small)
             c["input"]["shrunk_from_ops"] = len(c["_job"]["ops"])
     for c in cases:
@@ -844,18 +856,30 @@ def run(args):
                                  "sched_shared_writes": sum(r.get("n_shared_writes", 0) for r in sres),
                                  "python_hash_seeds": hashseeds}
     cov["exhaustive"] = False
-    cov["rule"] = ("histories of 3-12 API calls (parse domain/problem, Operator, ground, is_applicable, apply x 4 flag combinations, "
-                   "re-apply to earlier/later states, State.copy, serialize, str, export, create_single_triplet, Domain(), combine agent "
-                   "domains) over generated typed/untyped domains with numeric fluents, conditional and forall effects; after every call "
-                   "digests of DEFAULT_TYPES, all domains and ALL live states are compared (oracle), the sharing graph is compared with the "
-                   "model's, every query is repeated at the end; plus N=2-4 real threads on one shared domain (switch interval 1e-6) compared "
-                   "with sequential runs.  Non-trivial: >= 3 executed calls including a transition/combine/copy; distinct by hash of the job.")
-    cov["samples"] = [{"ops": c["input"].get("resolved"), "observed": c["input"].get("observed")} for c in cases[4:7]] + \
-                     [{"threads": [len(t) for t in c["input"]["job"]["threads"]], "observed": c["input"]["observed"]} for c in cases[-1:]]
+    cov["rule"] = ("histories of 3-12 API calls (parse domain/problem, Domain(), combine agent domains, Domain.shallow_copy, Operator, ground, "
+                   "is_applicable, apply x 4 flag combinations, re-apply to earlier/later states, State.copy, State ==, serialize, str of "
+                   "operator/action/domain/problem, domain and problem export, create_single_triplet, parse_plan of 2-4 calls, trajectory export) "
+                   "over generated typed/untyped domains with numeric fluents, conditional effects, forall effects and forall preconditions, a strict "
+                   "subtype (c - a) and problems with numeric goals; plus one long history per shipped (domain, problem, plan) of "
+                   "tests/exporters_tests with the shipped agent domains of tests/multi_agent_tests.  After EVERY call digests of DEFAULT_TYPES, all "
+                   "domains and ALL live states are compared (oracle), the sharing graph of mutable objects between roots is compared with the "
+                   "model's, every query is repeated at the end.  Threads: N=2-4 real threads on one shared domain (switch interval 1e-6) against "
+                   "sequential runs; deterministic scheduler jobs (2-3 threads of 4-8 calls, logging proxies on the shared domain's containers): "
+                   "all one-preemption schedules (per thread order, capped as reported) + seeded random schedules, results against solo runs, "
+                   "shared read/write footprint of every call against the model.  Non-trivial: >= 3 executed calls including a "
+                   "transition/combine/copy (histories), at least one context switch (scheduler jobs); distinct by hash of the job.")
+    gen_cases = [c for c in cases if c["input"].get("job", {}).get("style") in ("sim", "domains", "mixed")]
+    fx_cases = [c for c in cases if c["input"].get("job", {}).get("style") == "fixture"]
+    sc_cases = [c for c in cases if c["input"].get("job", {}).get("op") == "c07.sched"]
+    cov["samples"] = [{"ops": c["input"].get("resolved"), "observed": c["input"].get("observed")} for c in gen_cases[:3]] + \
+                     [{"fixture": c["input"]["job"].get("fixture"), "calls": len(c["input"].get("resolved") or []), "observed": c["input"].get("observed")} for c in fx_cases[:1]] + \
+                     [{"scheduler_threads": c["input"]["job"]["threads"], "observed": c["input"]["observed"]} for c in sc_cases[:1]]
     cov["explanation"] = ("theorems C07_* (Props/C07.v) proved for all histories on the store model; model tied to the code by the "
                           "per-step comparison of changed values and sharing pairs on the cases above")
     rep.assumptions = ["values are abstract in the model (cells carry stamps); value-dependent branch outcomes (refused?) are inputs of the model taken from the run",
                        "objects no operation writes after construction (PDDLType, Predicate/GroundedPredicate, PDDLObject and their signature dicts) are values, not cells; the digest oracle still covers them",
-                       "CPython scheduler / GIL / byte-code atomicity are outside the model; real threads are sampled, not enumerated",
+                       "CPython scheduler / GIL / byte-code atomicity are outside the model; real threads and multi-preemption schedules are sampled; the one-preemption schedule space of each scheduler job is enumerated at the granularity of method calls on the proxied containers (Domain.types/actions/predicates/functions/constants/requirements, Action.signature and effect sets)",
+                       "a Problem's references into its own Domain (Problem.domain; goal-tree leaves that are the domain's lifted zero-arity PDDLFunction objects) are not counted as sharing between values",
+                       "shipped fixtures use the default action shape in the model (the predictions compared - changed values, sharing graph - do not depend on the sizes of an operator's private region)",
                        "base and `when` groups of generated actions do not interfere (D12/C03 is not C07's business)"]
     return rep.finish()
